@@ -22,6 +22,12 @@ func genC18(c *Ctx) {
 		"lc 1 map add:1 filter mod:2:0 src 0 1,2,3,4",
 		"merge 2 concat 2 src 0 1 src 1 4 map add:1 src 2 1,2",
 		"zip 2 merge 2 src 0 1,3 src 1 2 concat 2 src 2 7 src 3 8,9",
+		// an additional lifecycle on the composite itself (its Open may fail after the composite's own builder element opened)
+		"lc 3 merge 2 src 0 1,3 src 1 2,4",
+		"lc 3 concat 2 src 0 1,2 src 1 3",
+		"lc 3 zip 2 src 0 1,2 src 1 3,4",
+		"merge 2 lc 3 concat 2 src 0 1 src 1 4 src 2 2,3",
+		"lc 4 lc 3 merge 2 src 0 1 src 1 2",
 	}
 	var pipes []string
 	pipes = append(pipes, fixed...)
@@ -97,6 +103,10 @@ func genC18(c *Ctx) {
 			}
 		}
 		if pi < len(fixed) {
+			// every position of a failing call once
+			for k := 0; k < nCalls; k++ {
+				endings = append(endings, fmt.Sprintf("collect all err@%d", k))
+			}
 			// exhaustive: all histories of length <= 2 over the endings, followed by a complete materialisation
 			for _, e1 := range endings {
 				c.Case(true, strings.Join([]string{p, e1, "collect all nofault"}, " || "))
